@@ -63,9 +63,9 @@ def run(tier, seed, selftest=False, replay=None):
     def ex(i):
         if len(jobs[i]) == 3:
             lang, seeds, part = jobs[i]
-            return json.loads(run_driver("trans_exec.py", [lang, json.dumps(seeds), hfs[part], os.path.join(d, "trace%d.json" % i)], timeout=3400))
+            return json.loads(run_driver("trans_exec.py", [lang, json.dumps(seeds), hfs[part], os.path.join(d, "trace%d.json" % i), 90 if tier == "quick" else 900], timeout=3400))
         lang, seeds = jobs[i]
-        return json.loads(run_driver("trans_exec.py", [lang, json.dumps(seeds), hf, os.path.join(d, "trace%d.json" % i)], timeout=3400))
+        return json.loads(run_driver("trans_exec.py", [lang, json.dumps(seeds), hf, os.path.join(d, "trace%d.json" % i), 900], timeout=3400))
     files = [f for fl in parallel(ex, range(len(jobs))) for f in fl]
     T("executed")
     if selftest:
@@ -92,6 +92,7 @@ def run(tier, seed, selftest=False, replay=None):
     write_evidence(PID, tier, seed, "model_checking", {
         "states": sum(g.distinct for g in gens) + sum(v.distinct for v in vals), "transitions": sum(g.generated for g in gens) + sum(v.generated for v in vals),
         "traces_validated_against_impl": ncases,
+        "histories_not_run_for_slow_base_programs": [x for f in files for x in read_json(f).get("skipped", [])],
         "samples": [sample],
         "evaluations": steps, "distinct_nontrivial": len(hists),
         "rule": "TLC enumerates every history of <= %d translation calls over {reused translator, reused translator of another language, fresh "
